@@ -62,6 +62,8 @@ class Engine:
 
     # -------------------------------------------------------------- solver
     def check(self, *extra):
+        if getattr(self, "tactic", None):
+            return self.check_tactic(self.tactic, *extra)
         t = time.time()
         if extra:
             # push/add/pop rather than check-with-assumptions: assumptions are meant to be literals
@@ -333,7 +335,17 @@ def zmul(a, b):
     return t
 
 
+DIV_WITNESS = [False]     # purify divisions by non-constants: q with q*b = a (keeps nlsat queries polynomial and low-degree)
+
+
 def zdiv(a, b):
+    if DIV_WITNESS[0] and not NL_UF[0]:
+        b = z3.simplify(b)
+        if not _is_num(b):
+            e = eng()
+            q = e.fresh("quot", "Real")
+            e.solver.add(q * b == a, b != 0)
+            return q
     if NL_UF[0]:
         b = z3.simplify(b)
     if not NL_UF[0] or _is_num(b):
